@@ -52,3 +52,8 @@ Definition bools_eqb (a b : list bool) : bool :=
   (fix go x y := match x, y with [], [] => true | p :: x', q :: y' => Bool.eqb p q && go x' y' | _, _ => false end) a b.
 Definition oz_eqb (a b : list (option Z)) : bool :=
   (fix go x y := match x, y with [], [] => true | Some p :: x', Some q :: y' => Z.eqb p q && go x' y' | None :: x', None :: y' => go x' y' | _, _ => false end) a b.
+
+(* indexes (0-based) of the cases that failed *)
+Fixpoint failing_from (n : nat) (l : list bool) : list nat :=
+  match l with [] => [] | b :: r => (if b then [] else [n]) ++ failing_from (S n) r end.
+Definition failing (l : list bool) : list nat := failing_from 0 l.
